@@ -1201,17 +1201,23 @@ def run(ctx):
     impl, model = diff.run_cases(cases)
     # a loaded machine can make the 10 s watchdog fire: a `timeout` (or a missing answer) is
     # inconclusive; such cases are re-run serially with a long watchdog before they are judged
-    retried = 0
+    # timeout / abort / skipped / a ball that escaped the whole query.  Every configuration catches
+    # error(_, _) itself, so a ball at the top is not a unification result: it is the watchdog (its
+    # interrupt is thrown as error('$interrupt_thrown', repl/0); the case's own catch/3 may intercept
+    # one interrupt and the next one then ends the query; on a heavily loaded machine whole-case
+    # answers `exception(E)` and `exception(repl/0)` were seen).  Such cases are inconclusive and are
+    # run again, serially, with a long watchdog; what the second run gives is judged.  More than
+    # MAX_RERUN of them is not load but a broken implementation: then nothing is re-run and the
+    # first answers are judged.
+    MAX_RERUN = 25
+    inconclusive = []
     for c in cases:
         r = impl.get(c["id"])
         if r is None or not (r.startswith("{") or r.startswith("panic")) or "interrupt_thrown" in r:
-            # timeout / abort / skipped / a ball that escaped the whole query.  Every configuration
-            # catches error(_, _) itself, so a ball at the top is not a unification result: it is the
-            # watchdog (its interrupt is thrown as error('$interrupt_thrown', repl/0); the case's own
-            # catch/3 may intercept one interrupt and the next one then ends the query; on a heavily
-            # loaded machine whole-case answers `exception(E)` and `exception(repl/0)` were seen).
-            # Such cases are inconclusive and are run again, serially, with a long watchdog; what the
-            # second run gives is judged.
+            inconclusive.append(c)
+    retried = 0
+    if len(inconclusive) <= MAX_RERUN:
+        for c in inconclusive:
             retried += 1
             impl.update(core.run_impl(c["impl"], env={"SV_TIMEOUT_MS": "120000"}))
     findings = []
@@ -1257,6 +1263,7 @@ def run(ctx):
         "bindings_histogram": nbind_hist,
         "results_not_printed_pstr_atom_tail": hidden,
         "timeouts_rerun_serially": retried,
+        "inconclusive_first_answers": len(inconclusive),
         "exhaustive": False,
         "findings": findings,
     }
